@@ -3,7 +3,9 @@
 //!   simchild LOG SCRIPT ARGS...
 //!
 //! Appends one record to LOG: the number of ARGS, each ARG as
-//! "<len>:<bytes>", the working directory; then consumes the first line of
+//! "<len>:<bytes>", the working directory, how many bytes its standard input
+//! still held ("STDIN n": a child must not be able to read its parent's
+//! argument stream); then consumes the first line of
 //! SCRIPT's remaining outcomes ("exit N" / "signal N") — the position is kept
 //! in LOG's record count — and ends accordingly.
 use std::io::Write;
@@ -29,6 +31,20 @@ fn main() {
     let cwd = std::env::current_dir().map(|p| p.into_os_string()).unwrap_or_default();
     rec.extend_from_slice(format!("CWD {}:", cwd.as_bytes().len()).as_bytes());
     rec.extend_from_slice(cwd.as_bytes());
+    // what is readable on fd 0 (the harness guarantees an end of file)
+    let mut n = 0usize;
+    {
+        use std::io::Read;
+        let mut buf = [0u8; 4096];
+        let mut stdin = std::io::stdin();
+        while n < (1 << 20) {
+            match stdin.read(&mut buf) {
+                Ok(0) | Err(_) => break,
+                Ok(k) => n += k,
+            }
+        }
+    }
+    rec.extend_from_slice(format!("\nSTDIN {n}").as_bytes());
     rec.extend_from_slice(b"\nEND\n");
     if let Ok(mut f) = std::fs::OpenOptions::new().create(true).append(true).open(log) {
         let _ = f.write_all(&rec);
